@@ -1,6 +1,6 @@
 #!/bin/bash
 # usage: tools/keep2.sh <ID> <suffix> "<detected_by or MISSED …>" "<needs to manifest>"
-id="$1"; suf="$2"; det="$3"; needs="$4"; src=/tmp/s2/out/$id; d=/verif/seeded/$id-$suf
+id="$1"; suf="$2"; det="$3"; needs="$4"; src=${SEEDROOT:-/tmp/s2}/out/$id; d=/verif/seeded/$id-$suf
 mkdir -p $d/demo; cp $src/patch.diff $d/; cp $src/README.md $d/ 2>/dev/null
 for f in $src/*; do case "$(basename $f)" in patch.diff|README.md) ;; *) [ -f "$f" ] && [ $(stat -c %s "$f") -lt 200000 ] && cp "$f" $d/demo/;; esac; done
 python3 - "$id-$suf" "$id" "$det" "$needs" <<'PY'
